@@ -28,7 +28,10 @@ pub open spec fn prefix_rt() -> bool {
     &&& forall|x: u32, r: Seq<u8>| dec_u32(#[trigger] (enc_u32(x) + r)) == Some((x, r))
 }
 
-pub struct DeserializationError;
+pub struct Msg;
+#[verifier::external_body]
+pub fn err_text() -> Msg { unimplemented!() }
+pub enum DeserializationError { InvalidValue(Msg), UnexpectedEOF }
 pub struct Reader { pub rem: Ghost<Seq<u8>> }
 pub struct Writer { pub out: Ghost<Seq<u8>> }
 #[verifier::external_body]
@@ -208,30 +211,12 @@ impl Commitments {
 // FRI proof parts (fri/src/proof.rs): a layer is two byte vectors behind 32-bit prefixes, the first of which must not be empty;
 // a FRI proof is a layer count (one byte), the layers, the remainder behind a 16-bit prefix and the log2 of the number of
 // partitions (one byte, refused when 2^k is not representable).
-pub struct Msg;
-#[verifier::external_body]
-pub fn err_text() -> Msg { unimplemented!() }
-pub enum DeserializationError2 { InvalidValue(Msg), Other }
 pub struct FriProofLayer { pub values: Vec<u8>, pub paths: Vec<u8> }
 pub open spec fn enc_layer(l: FriProofLayer) -> Seq<u8> {
     enc_u32(l.values.len() as u32) + l.values@ + enc_u32(l.paths.len() as u32) + l.paths@
 }
 pub open spec fn dec_layer(s: Seq<u8>) -> Option<((Seq<u8>, Seq<u8>), Seq<u8>)> {
     match dec_v32(s) { None => None, Some((v, r1)) => if v.len() == 0 { None } else { match dec_v32(r1) { None => None, Some((p, r2)) => Some(((v, p), r2)) } } }
-}
-impl Reader {
-    // the same readers with the error type of this section (the source has one error type; the two enums of this file only differ in
-    // which variants the extracted bodies construct)
-    #[verifier::external_body]
-    pub fn read_u32b(&mut self) -> (r: Result<u32, DeserializationError2>)
-        ensures r is Ok <==> dec_u32(old(self).rem@) is Some,
-                r is Ok ==> r->Ok_0 == dec_u32(old(self).rem@)->Some_0.0 && final(self).rem@ == dec_u32(old(self).rem@)->Some_0.1,
-    { unimplemented!() }
-    #[verifier::external_body]
-    pub fn read_vecb(&mut self, len: usize) -> (r: Result<Vec<u8>, DeserializationError2>)
-        ensures r is Ok <==> old(self).rem@.len() >= len,
-                r is Ok ==> r->Ok_0@ == old(self).rem@.take(len as int) && final(self).rem@ == old(self).rem@.skip(len as int),
-    { unimplemented!() }
 }
 impl FriProofLayer {
     //@@ source fri/src/proof.rs
@@ -245,10 +230,8 @@ impl FriProofLayer {
     }
 
     //@@ extract within="impl Deserializable for FriProofLayer" anchor="fn read_from<R: ByteReader>(source: &mut R) -> Result<Self, DeserializationError>"
-    //@@ rewrite-re "DeserializationError::InvalidValue\(\s*\"[^\"]*\"\s*\.to_string\(\),?\s*\)" => "DeserializationError2::InvalidValue(err_text())"
-    //@@ rewrite "source.read_u32()?" => "source.read_u32b()?"
-    //@@ rewrite "source.read_vec(" => "source.read_vecb("
-    pub fn read_from(source: &mut Reader) -> (r: Result<FriProofLayer, DeserializationError2>)
+    //@@ rewrite-re "DeserializationError::InvalidValue\(\s*\"[^\"]*\"\s*\.to_string\(\),?\s*\)" => "DeserializationError::InvalidValue(err_text())"
+    pub fn read_from(source: &mut Reader) -> (r: Result<FriProofLayer, DeserializationError>)
         ensures
             r is Ok <==> dec_layer(old(source).rem@) is Some,
             r is Ok ==> dec_layer(old(source).rem@) == Some(((r->Ok_0.values@, r->Ok_0.paths@), final(source).rem@)),
